@@ -58,3 +58,8 @@ pub fn stridx_inclusive_control(s: &str, n: usize) -> &str {
     let last = s.char_indices().take(n).map(|(i, _)| i).last().unwrap_or_default();
     &s[..=last]
 }
+
+/// SHIFT control: shift by an unbounded run-time amount.
+pub fn shift_control(exp: i32) -> f64 {
+    (1u64 << exp) as f64
+}
